@@ -98,6 +98,49 @@ func (r *payRunner) tryBurst(o, blen int, pat uint64) {
 	r.xorPattern(o, pat)
 }
 
+// tryTrailerTransforms: errors confined to the 4 trailer bytes are bursts of at most 32 bits whatever they look
+// like, so a trailer rewritten by a "plausible" transformation of itself (another byte order, its complement,
+// a rotation, its neighbours) must be rejected as well — patterns that depend on the data, which a sweep of fixed
+// patterns meets only by chance. Identity results (palindromic trailers) are skipped.
+func (r *payRunner) tryTrailerTransforms() {
+	if r.R < 32 {
+		return
+	}
+	tr := r.reg[len(r.reg)-4:]
+	old := uint32(tr[0]) | uint32(tr[1])<<8 | uint32(tr[2])<<16 | uint32(tr[3])<<24
+	rev8 := func(b uint32) uint32 {
+		var o uint32
+		for i := 0; i < 8; i++ {
+			o |= (b >> uint(i) & 1) << uint(7-i)
+		}
+		return o
+	}
+	byteRev := old>>24 | old>>8&0xff00 | old<<8&0xff0000 | old<<24
+	bitRevBytes := rev8(old&0xff) | rev8(old>>8&0xff)<<8 | rev8(old>>16&0xff)<<16 | rev8(old>>24&0xff)<<24
+	cands := []struct {
+		name string
+		v    uint32
+	}{{"byte-reversed", byteRev}, {"complemented", ^old}, {"rotated-8", old<<8 | old>>24}, {"rotated-16", old<<16 | old>>16}, {"rotated-24", old<<24 | old>>8},
+		{"halves-byte-swapped", old>>8&0x00ff00ff | old<<8&0xff00ff00}, {"bits-reversed-in-each-byte", bitRevBytes},
+		{"bits-reversed", rev8(byteRev&0xff) | rev8(byteRev>>8&0xff)<<8 | rev8(byteRev>>16&0xff)<<16 | rev8(byteRev>>24&0xff)<<24},
+		{"plus-one", old + 1}, {"minus-one", old - 1}, {"zero", 0}, {"all-ones", 0xffffffff}}
+	for _, cd := range cands {
+		pat := uint64(old ^ cd.v)
+		if pat == 0 {
+			continue
+		}
+		o := r.R - 32
+		r.xorPattern(o, pat)
+		r.burst[32]++
+		name := cd.name
+		if r.judge(func() string { return "payload/trailer-transform/" + name }, func() []int { return patBits(o, pat) }) {
+			r.burstRej[32]++
+		}
+		r.xorPattern(o, pat)
+		r.c.Count("payload_trailer_transforms_tried", 1)
+	}
+}
+
 // tryMSB applies a burst that is contiguous in MSB-first numbering (position q = bit 7-(q%8) of
 // byte q/8). It is judged only if its LSB-first span is <= 32, i.e. if it also is a burst of the
 // guaranteed kind; otherwise acceptances are merely counted.
@@ -281,6 +324,9 @@ func payloadPlan(c *mon.Ctx) ([]task, func(*mon.Ctx, task, *mon.Rand)) {
 		r := newPayRunner(c, b, int(t.bi))
 		switch t.kind {
 		case kSingle:
+			if lo == 0 {
+				r.tryTrailerTransforms() // once per base
+			}
 			for p := lo; p < hi; p++ {
 				if huge && !T && p&3 != (p>>2+seed)&3 {
 					continue // quick, 128 KiB class: 1 bit in 4
